@@ -16,7 +16,7 @@ R["C09"] = ("cases: small graphs with inexact double weights (0.1*i, 0.01*i, log
 R["C15"] = ("cases: graphs as C01 x k in 1..5; the spanner is read through the PARMCB_VERIF accessors right after construction. distinct = (graph hash, k); "
             "non-trivial = >= 1 dropped edge and the retained subgraph has >= 1 cycle")
 
-R["C03"] = ("cases: graph x layout x {signed_tbb, fvs_trees_tbb, iso_trees_tbb, approx_*_tbb (k 1..4)} x W in {1,2,3,4,8} x per-run split/steal probabilities x the full "
+R["C03"] = ("cases: graph x layout x {signed_tbb, fvs_trees_tbb, iso_trees_tbb, approx_*_tbb (k 1..4)} x W in {1,2,3,4,8} x per-run split/steal probabilities (25 % with a steal budget of 1..2 per region, 30 % stealing only small right halves) x optional history of 1..2 earlier calls x the full "
             "choice stream (bisection, steals, strand interleaving at every leaf / push_back / join). distinct = (graph hash, entry, schedule fingerprint = hash of all scheduling decisions); "
             "non-trivial = the graph is non-trivial as in C01/C05 AND the schedule had >= 1 join of a stolen accumulator where at least one side had found a cycle, or >= 1 push_back "
             "that followed a push_back of another strand. The same generator runs in the TSan build, where fork/join edges are the only happens-before TSan sees")
